@@ -42,6 +42,8 @@ type c20Client struct {
 	fault func() harness.FaultPlan
 	fired bool
 	dead  bool // a request never returned: the client gives up
+	// harness-owned schedules (TestC20Nested): called before / after every request
+	gate, ungate func()
 }
 
 func sortedKeysOf(m map[string]string) string {
@@ -94,7 +96,13 @@ func (c *c20Client) do(step, method, path string, form map[string]string, query 
 	if c.fault != nil {
 		q.Fault = c.fault()
 	}
+	if c.gate != nil {
+		c.gate()
+	}
 	r := c.w.Do(q)
+	if c.ungate != nil {
+		c.ungate()
+	}
 	if r.Fired != "" {
 		c.fired = true
 	}
@@ -109,7 +117,9 @@ func (c *c20Client) do(step, method, path string, form map[string]string, query 
 
 // mailToken polls the configured mailer's capture for the newest token mailed to addr.
 func (c *c20Client) mailToken(addr, marker string, seen int) (string, int) {
-	deadline := time.Now().Add(2 * time.Second)
+	// generous: under load (16 race-instrumented shards, GOMAXPROCS 2) a mail goroutine plus an SMTP
+	// conversation has been seen to take more than 2 s; a mail that is really lost costs the full wait
+	deadline := time.Now().Add(12 * time.Second)
 	for {
 		var toks []string
 		switch c.w.Cfg.Mailer {
@@ -207,6 +217,10 @@ func (c *c20Client) run(script []string) {
 		case "totp-login":
 			// the client's fourth account has TOTP 2FA: password step, a wrong code, the current code, then the same code
 			// again on a second login (refused as used when replay protection is on) - refusals for different reasons
+			// (from a fresh session: with another account still logged in, the code page acts on that
+			// account, the code stays unconsumed and the replay's fate would depend on whether an earlier
+			// totp-login step fell into the same 30 s period - time, not the other clients)
+			w.Jars[c.i].ClearSession()
 			tp := fmt.Sprintf("totp%d@x.io", c.i)
 			sec := ""
 			if u := w.Store.Peek(tp); u != nil {
